@@ -148,6 +148,16 @@ class Reader:
         self.memory = {}
         self.zeros_boundaries = []
 
+        # the segments must not overlap (the writer never produces that) - else the loaded image
+        #  depends on the segments' order, and the engines disagree on it.
+        sorted_ranges = sorted((start, start + length) for start, length, _, _ in segments if length > 0)
+        for (_, previous_end), (next_start, _) in zip(sorted_ranges, sorted_ranges[1:]):
+            if next_start < previous_end:
+                raise FlipJumpReadFjmException(
+                    f"Bad .fjm file: overlapping segments (a segment starts at word {next_start},"
+                    f" before the previous one ends at word {previous_end})."
+                )
+
         self.memory_segments: List[MemorySegment] = []
         for segment_start, segment_length, data_start, data_length in segments:
             # data is laid out as (flip-word, jump-word) op-pairs, so its length must be even
@@ -160,6 +170,10 @@ class Reader:
                 raise FlipJumpReadFjmException(
                     f"Bad .fjm file: segment data range [{data_start}, {data_start + data_length})"
                     f" exceeds data pool length {len(data)}."
+                )
+            if data_length > segment_length:
+                raise FlipJumpReadFjmException(
+                    f"Bad .fjm file: segment data-length ({data_length}) exceeds its segment-length ({segment_length})."
                 )
             self.memory_segments.append(MemorySegment(segment_start, segment_length))
             if self.version in (FJMVersion.RelativeJumpVersion, FJMVersion.CompressedVersion):
